@@ -1,13 +1,18 @@
 """C12 - shortest-path trees are exact and mutually consistent."""
 from lib import engine
 from lib.core import tier
-from units import k12_scalar
+from units import k12_scalar, k12a_sptree_init, k12b_first
 
 LEVEL = "other"
 EXPLANATION = (
     "PROVED by CBMC (loop-free, full domain): the scalar prefix (distance, then edge count) of the label order "
     "LexDistanceCompare decides strictly and consistently in both argument orders, and closed_plus is + below "
-    "infinity and saturates without overflow - the arithmetic part of 'total order on labels'.  BOUNDED "
+    "infinity and saturates without overflow - the arithmetic part of 'total order on labels'.  PROVED(n<=4, thorough 6; loop contracts "
+    "with quantified invariants; SPNode constructors bound mechanically from their initialiser lists): SPTree::initialize gives a node "
+    "exactly to the source and to the vertices with a predecessor, each storing its vertex, its distance (0 for the source) and its "
+    "predecessor edge, sets the root, lists every non-source node exactly once under the other endpoint of its predecessor edge "
+    "and dereferences no null pointer (K12a, given the contract of lex_dijkstra).  BOUNDED by CBMC (trees <= 5/6 nodes, unwound): "
+    "compute_first_in_path labels every tree node with the child of the root whose subtree holds it (K12b).  BOUNDED "
     "stand-in for contract K12 (the property statement): for every graph of the exact-domain set and every "
     "root, distances = Floyd-Warshall, predecessor edges form a tree whose root paths have those lengths, "
     "first(v) is the child of the root on the path, tree path u->v is the reverse of v->u, every sub-path of a "
@@ -17,7 +22,7 @@ EXPLANATION = (
 
 
 def run(rep):
-    engine.run_units(rep, k12_scalar.units(tier()))
+    engine.run_units(rep, k12_scalar.units(tier()) + k12a_sptree_init.units(tier()) + k12b_first.units(tier()))
     engine.run_native(rep, "e3_components", driver="e3_components[C12]", args=["--only", "C12"],
                       functions={"SPTree ctor/node/first + lex_dijkstra": "bounded(all graphs n<=6 + tie-heavy families + random)",
                                  "LexDistanceCompare set-difference tail": "bounded(all equal-size subsets of {0..5})"},
